@@ -10,6 +10,11 @@ import (
 )
 
 func BuildSchemaValidation(schema *openapi3.SchemaRef, validationString string, fieldInterface string) {
+	if schema == nil || schema.Value == nil {
+		// A reference whose target schema has not been materialized yet carries no value to annotate
+		return
+	}
+
 	// Parse and apply validation rules from the Validator field
 	validationRules := strings.Split(validationString, ",")
 	for _, rule := range validationRules {
@@ -100,7 +105,11 @@ func BuildSchemaValidation(schema *openapi3.SchemaRef, validationString string, 
 			}
 		case "min":
 			if specType == "string" {
-				schema.Value.MinLength = *swagtool.ParseUInteger(ruleValue)
+				if minLength := swagtool.ParseUInteger(ruleValue); minLength != nil {
+					schema.Value.MinLength = *minLength
+				} else {
+					logger.Warn("Validation rule 'min' expects a non-negative integer for string fields, got '%s'", ruleValue)
+				}
 			} else if specType == "integer" || specType == "number" {
 				schema.Value.Min = swagtool.ParseNumber(ruleValue)
 				schema.Value.ExclusiveMin = false
@@ -118,9 +127,12 @@ func BuildSchemaValidation(schema *openapi3.SchemaRef, validationString string, 
 			}
 		case "len":
 			if specType == "string" {
-				length := swagtool.ParseUInteger(ruleValue)
-				schema.Value.MinLength = *length
-				schema.Value.MaxLength = length
+				if length := swagtool.ParseUInteger(ruleValue); length != nil {
+					schema.Value.MinLength = *length
+					schema.Value.MaxLength = length
+				} else {
+					logger.Warn("Validation rule 'len' expects a non-negative integer, got '%s'", ruleValue)
+				}
 			} else {
 				logger.Warn("Validation rule 'len' is only applicable to string fields, got %s", specType)
 			}
@@ -132,7 +144,11 @@ func BuildSchemaValidation(schema *openapi3.SchemaRef, validationString string, 
 			}
 		case "minItems":
 			if specType == "array" {
-				schema.Value.MinItems = *swagtool.ParseUInteger(ruleValue)
+				if minItems := swagtool.ParseUInteger(ruleValue); minItems != nil {
+					schema.Value.MinItems = *minItems
+				} else {
+					logger.Warn("Validation rule 'minItems' expects a non-negative integer, got '%s'", ruleValue)
+				}
 			} else {
 				logger.Warn("Validation rule 'minItems' is only applicable to array fields, got %s", specType)
 			}
@@ -144,7 +160,11 @@ func BuildSchemaValidation(schema *openapi3.SchemaRef, validationString string, 
 			}
 		case "uniqueItems":
 			if specType == "array" {
-				schema.Value.UniqueItems = *swagtool.ParseBool(ruleValue)
+				if uniqueItems := swagtool.ParseBool(ruleValue); uniqueItems != nil {
+					schema.Value.UniqueItems = *uniqueItems
+				} else {
+					logger.Warn("Validation rule 'uniqueItems' expects a boolean, got '%s'", ruleValue)
+				}
 			} else {
 				logger.Warn("Validation rule 'uniqueItems' is only applicable to array fields, got %s", specType)
 			}
